@@ -77,7 +77,7 @@ func rewrite(path, rel string, lookForListen bool) (int, int, error) {
 		return 0, 0, err
 	}
 	var sp []splice
-	yields, listens := 0, 0
+	yields, listens, locks := 0, 0, 0
 	addStmts := func(list []ast.Stmt) {
 		for _, s := range list {
 			switch s.(type) {
@@ -103,6 +103,25 @@ func rewrite(path, rel string, lookForListen bool) (int, int, error) {
 		case *ast.CommClause:
 			addStmts(x.Body)
 		case *ast.CallExpr:
+			// X.Lock() / X.RLock() / X.Unlock() / X.RUnlock() -> simyield.Lock(X.TryLock, X.Lock, site) / simyield.Unlock(X.Unlock)
+			if sel, ok := x.Fun.(*ast.SelectorExpr); ok && len(x.Args) == 0 {
+				xs, xe := fset.Position(sel.X.Pos()).Offset, fset.Position(sel.X.End()).Offset
+				end := fset.Position(x.End()).Offset
+				recv := string(src[xs:xe])
+				pos := fset.Position(x.Pos())
+				site := fmt.Sprintf("%s:%d", rel, pos.Line)
+				switch sel.Sel.Name {
+				case "Lock":
+					sp = append(sp, splice{off: xs, del: end - xs, text: fmt.Sprintf("simyield.Lock(%s.TryLock, %s.Lock, %q)", recv, recv, "mutex-wait:"+site)})
+					locks++
+				case "RLock":
+					sp = append(sp, splice{off: xs, del: end - xs, text: fmt.Sprintf("simyield.Lock(%s.TryRLock, %s.RLock, %q)", recv, recv, "mutex-wait:"+site)})
+					locks++
+				case "Unlock", "RUnlock":
+					sp = append(sp, splice{off: xs, del: end - xs, text: fmt.Sprintf("simyield.Unlock(%s.%s)", recv, sel.Sel.Name)})
+					locks++
+				}
+			}
 			if lookForListen {
 				if sel, ok := x.Fun.(*ast.SelectorExpr); ok && sel.Sel.Name == "ListenAndServe" && len(x.Args) == 0 {
 					// X.ListenAndServe()  ->  simyield.ListenAndServe(X)
@@ -123,6 +142,7 @@ func rewrite(path, rel string, lookForListen bool) (int, int, error) {
 	// import on the package clause line
 	pkgEnd := fset.Position(f.Name.End()).Offset
 	sp = append(sp, splice{off: pkgEnd, text: "; import simyield \"" + importPath + "\""})
+	_ = locks
 	sort.SliceStable(sp, func(i, j int) bool { return sp[i].off < sp[j].off })
 	var out []byte
 	last := 0
